@@ -122,6 +122,8 @@ func (br *BrokerBatchRows) TryAppend(appendFunc func(row *BrokerRow) error) erro
 	if len(br.rows) <= br.rowCount {
 		br.rows = append(br.rows, BrokerRow{})
 	}
+	// the row is reused from a previous batch, it must not inherit the evicted mark
+	br.rows[br.rowCount].IsOutOfTimeRange = false
 	if err := appendFunc(&br.rows[br.rowCount]); err != nil {
 		return err
 	}
